@@ -747,6 +747,12 @@ def modfn(ex, mod, name, args, kw):
         if ex.branch(ok):
             return MatchObj(s, groups)
         return None
+    if mod == "math" and name in ("isfinite", "isnan", "isinf"):
+        # A-float: floats are modelled as rationals - every modelled number is finite (nan / inf are outside the model and are
+        # covered by executed / bounded checks only)
+        if isinstance(args[0], (int, Fraction, SNum)) and not isinstance(args[0], bool):
+            return name == "isfinite"
+        raise Unsupported("math." + name + " of a non-number")
     if mod == "math" and name in ("floor", "ceil"):
         x = args[0]
         if isinstance(x, int):
